@@ -5,6 +5,8 @@
  * modes: pairs (all ordered pairs x cleared x cfg), rand (--n random histories up to length 20)
  */
 #include "vh.h"
+#include <sys/wait.h>
+#include <unistd.h>
 
 #define NOW 1700000000L
 static vh_rng_t rng;
@@ -167,6 +169,29 @@ static jwt_builder_t *mk_builder(int cfg, bctx_t *ctx)
 	if (!nocb) jwt_builder_setcb(b, b_cb, ctx);
 	return b;
 }
+typedef struct { int hdr; const char *name; const char *json; } jose_t;
+static const jose_t JOSE[] = {
+	{ 1, "b64", "false" }, { 1, "b64", "true" }, { 1, "b64", "\"false\"" }, { 1, "crit", "[\"b64\"]" }, { 1, "crit", "[\"exp\"]" }, { 1, "crit", "[]" }, { 1, "crit", "\"exp\"" },
+	{ 1, "zip", "\"DEF\"" }, { 1, "enc", "\"A128GCM\"" }, { 1, "cty", "\"JWT\"" }, { 1, "jku", "\"https://keys.example/\"" }, { 1, "x5u", "\"https://x.example/\"" },
+	{ 1, "x5c", "[]" }, { 1, "x5c", "[\"MIIB\"]" }, { 1, "x5t", "\"AAAA\"" }, { 1, "x5t#S256", "\"AAAA\"" }, { 1, "jwk", "{}" }, { 1, "jwk", "{\"kty\":\"oct\",\"k\":\"\"}" },
+	{ 1, "kid", "7" }, { 1, "kid", "[null]" }, { 1, "kid", "\"\"" }, { 1, "nonce", "\"n\"" }, { 1, "url", "\"u\"" }, { 1, "epk", "{}" }, { 1, "p2c", "4096" }, { 1, "iv", "\"\"" },
+	{ 1, "tag", "false" }, { 1, "typ", "[]" }, { 1, "typ", "false" }, { 1, "ppt", "\"shaken\"" }, { 1, "svt", "[1]" },
+	{ 0, "jti", "\"id-1\"" }, { 0, "jti", "7" }, { 0, "cnf", "{\"jwk\":{}}" }, { 0, "scope", "\"a b\"" }, { 0, "azp", "{}" }, { 0, "auth_time", "\"x\"" }, { 0, "amr", "[]" },
+	{ 0, "nonce", "false" }, { 0, "iat", "false" }, { 0, "iat", "\"now\"" }, { 0, "exp", "false" }, { 0, "nbf", "[0]" }, { 0, "aud", "[\"a\",\"b\"]" }, { 0, "iss", "{}" }, { 0, "sub", "0" } };
+#define NJOSE ((unsigned long)(sizeof(JOSE) / sizeof(JOSE[0])))
+/* scalars go through the typed setters (the JSON setter takes objects and arrays only) */
+static void jose_put(jwt_builder_t *b, const jose_t *j)
+{
+	jwt_value_t v;
+	char s[64];
+	if (!strcmp(j->json, "true") || !strcmp(j->json, "false")) jwt_set_SET_BOOL(&v, j->name, j->json[0] == 't');
+	else if (j->json[0] >= '0' && j->json[0] <= '9') jwt_set_SET_INT(&v, j->name, atol(j->json));
+	else if (j->json[0] == '"') { snprintf(s, sizeof(s), "%s", j->json + 1); s[strlen(s) - 1] = 0; jwt_set_SET_STR(&v, j->name, s); }
+	else jwt_set_SET_JSON(&v, j->name, (char *)j->json);
+	v.replace = 1;
+	if (j->hdr) jwt_builder_header_set(b, &v); else jwt_builder_claim_set(b, &v);
+}
+
 static void gen_step(long hist, int step, int cfg, jwt_builder_t *reused, bctx_t *rctx, int action, int clear)
 {
 	bctx_t fctx = { action, step };
@@ -189,6 +214,13 @@ static void gen_step(long hist, int step, int cfg, jwt_builder_t *reused, bctx_t
 			jwt_set_SET_STR(&hv, "y", "\xff\xfe"); jwt_builder_claim_set(reused, &hv);
 			jwt_set_SET_STR(&hv, "y", "\xff\xfe"); jwt_builder_claim_set(fresh, &hv);
 		}
+	}
+	if (action == 9) {
+		/* one registered JOSE header parameter (RFC 7515 4.1, RFC 7797, RFC 7516) or registered claim with a value of some JSON type: the
+		 * application may put any of them; generate afterwards either works or says why */
+		const jose_t *j = &JOSE[(unsigned long)(hist * 3 + step) % NJOSE];
+		jose_put(reused, j);
+		jose_put(fresh, j);
 	}
 	if (action == 7) {
 		jwt_value_t hv;
@@ -218,6 +250,11 @@ static void gen_step(long hist, int step, int cfg, jwt_builder_t *reused, bctx_t
 	}
 	if (action == 7) jwt_builder_header_del(reused, "typ");
 	if (action == 8) { jwt_builder_header_del(reused, "x"); jwt_builder_claim_del(reused, "y"); }
+	if (action == 9) {
+		const jose_t *j = &JOSE[(unsigned long)(hist * 3 + step) % NJOSE];
+		if (j->hdr) jwt_builder_header_del(reused, j->name); else jwt_builder_claim_del(reused, j->name);
+		if (!j->hdr && !strcmp(j->name, "iss")) { jwt_value_t hv; jwt_set_SET_STR(&hv, "iss", "me"); jwt_builder_claim_set(reused, &hv); }	/* as mk_builder left it */
+	}
 	jwt_builder_free(fresh);
 }
 
@@ -230,9 +267,12 @@ int main(int argc, char **argv)
 	if (vh_key_gen(&K1, "oct:32", &rng) || vh_key_gen(&K2, "oct:48", &rng) || vh_key_gen(&KW, "oct:16", &rng) ||
 	    vh_key_gen(&KEC, "ec:P-256", &rng) || vh_key_gen(&KED, "okp:Ed25519", &rng) || vh_key_gen(&KRSA, "rsa:2048", &rng))
 		vh_harness_fail("keygen");
+	/* every key carries the same kid (RFC 7517 4.5 allows it for keys of different kinds): nothing may be remembered under it */
+	vh_load_kid = "shared-kid";
 	I1 = vh_key_load(&K1, 1, NULL, &kset); I1A = vh_key_load(&K1, 1, "HS256", &kset); I2 = vh_key_load(&K2, 1, NULL, &kset);
 	IW = vh_key_load(&KW, 1, NULL, &kset); IECpriv = vh_key_load(&KEC, 1, NULL, &kset); IECpub = vh_key_load(&KEC, 0, NULL, &kset);
 	IED = vh_key_load(&KED, 1, NULL, &kset); IRSA = vh_key_load(&KRSA, 1, NULL, &kset); IRSApub = vh_key_load(&KRSA, 0, NULL, &kset);
+	vh_load_kid = NULL;
 	build_pool();
 	for (int t = 0; t < NTOK; t++) printf("[\"TOK\",%d,\"%s\"]\n", t, TOKNAME[t]);
 	/* pristine verdicts: every (provider, configuration, token) on a fresh checker, tokens that may be valid first, so
@@ -247,11 +287,23 @@ int main(int argc, char **argv)
 			if (done[t]) continue;
 			done[t] = 1;
 			for (int prov = 0; prov < 2; prov++) for (int cfg = 0; cfg < NCFG; cfg++) {
-				jwt_checker_t *c;
-				vh_set_prov(prov);
-				c = mk_checker(cfg);
-				PRISTINE[prov][cfg][t] = jwt_checker_verify(c, TOK[t]) ? 1 : 0;
-				jwt_checker_free(c);
+				/* each verdict in a child of its own, forked before this process has verified anything: whatever a verification leaves
+				 * behind outside the checker (statics, thread-locals, provider state) cannot reach the next pristine verdict, and the
+				 * pristine pass leaves nothing behind for the histories */
+				int st = 0;
+				pid_t pid;
+				fflush(stdout);
+				pid = fork();
+				if (pid < 0) vh_harness_fail("fork");
+				if (pid == 0) {
+					jwt_checker_t *c;
+					vh_set_prov(prov);
+					c = mk_checker(cfg);
+					_exit(jwt_checker_verify(c, TOK[t]) ? 1 : 0);
+				}
+				if (waitpid(pid, &st, 0) != pid || !WIFEXITED(st) || WEXITSTATUS(st) > 1)
+					vh_harness_fail("pristine child for prov %d cfg %d token %d died (status %d)", prov, cfg, t, st);
+				PRISTINE[prov][cfg][t] = WEXITSTATUS(st);
 			}
 		}
 	}
@@ -274,8 +326,8 @@ int main(int argc, char **argv)
 		for (int prov = 0; prov < 2; prov++)
 		for (int nc = 0; nc < 2; nc++)
 		for (int cfg = 0; cfg < NBCFG; cfg++)
-		for (int a1 = 0; a1 < 9; a1++)
-		for (int a2 = 0; a2 < 9; a2++)
+		for (int a1 = 0; a1 < 10; a1++)
+		for (int a2 = 0; a2 < 10; a2++)
 		for (int cl = 0; cl < 2; cl++, hist++) {
 			bctx_t ctx = { 0, 0 };
 			jwt_builder_t *b;
@@ -311,7 +363,7 @@ int main(int argc, char **argv)
 				nocb = (int)vh_below(&rng, 2);
 				b = mk_builder(cfg, &ctx);
 				for (int s = 0; s < len; s++)
-					gen_step(h, s, cfg, b, &ctx, (int)vh_below(&rng, 9), (int)vh_below(&rng, 2));
+					gen_step(h, s, cfg, b, &ctx, (int)vh_below(&rng, 10), (int)vh_below(&rng, 2));
 				jwt_builder_free(b);
 			}
 		}
